@@ -212,10 +212,11 @@ def getPath (n : Nat) (seq : List BT) : Option Path := getPathLoop [] (List.rang
 /-! ### path → tree -/
 
 /-- `contract_nodes(merge)` for one or two nodes: the node itself / the union (a new parent).
-    Steps of three or more ids are completed by an optimizer and are outside this model. -/
+    A `frozenset` of leaves is kept as its sorted list.  Steps of three or more ids are
+    completed by an optimizer and are outside this model. -/
 def mergeNodes : List (List Nat) → Option (List Nat × Bool)
   | [x] => some (x, false)
-  | [x, y] => some (x ++ y, true)
+  | [x, y] => some (sortAsc (x ++ y), true)
   | _ => none
 
 /-- `nodes.pop(i)` on the dict `id ↦ node` of the ssa branch -/
@@ -278,6 +279,76 @@ where
 
 def fromLinearPath (n : Nat) (path : Path) : Option (List (List Nat) × List (List Nat)) :=
   fromLinearLoop ((List.range n).map fun i => [i]) path
+
+/-! ### certificate checker for a real traversal -/
+
+def cfPrefix : List BT → List BT → Bool
+  | _, [] => true
+  | done, x :: rest =>
+    (ichildren x).all done.contains && !done.contains x && cfPrefix (x :: done) rest
+
+/-- accepts a sequence of nodes iff it lists every internal node of `t` exactly once and every
+    internal child before its parent (sound: `C10.cfCheck_sound`) -/
+def cfCheck (t : BT) (seq : List BT) : Bool :=
+  seq.length == t.internal.length && t.internal.all seq.contains && cfPrefix [] seq
+
+/-! ### `edge_path_to_ssa` (path_basic.py:835-892); python sets are duplicate-free lists -/
+
+def setAdd (a : Nat) (l : List Nat) : List Nat := if l.contains a then l else l ++ [a]
+
+structure EdgeState where
+  indToSsas : List (Ix × List Nat)
+  ssaToInds : List (Nat × List Ix)
+  ssa : Nat
+  path : Path          -- steps so far, in order
+
+/-- the population loop (path_basic.py:858-861) -/
+def edgeInit (inputs : List (List Ix)) : EdgeState :=
+  let step := fun (st : List (Ix × List Nat) × List (Nat × List Ix)) (it : List Ix × Nat) =>
+    let i := it.2
+    let m := it.1.foldl (fun (m : List (Ix × List Nat)) ix =>
+      match m.lookup ix with
+      | none => m ++ [(ix, [i])]
+      | some _ => m.map fun kv => if kv.1 == ix then (kv.1, setAdd i kv.2) else kv) st.1
+    (m, st.2 ++ [(i, it.1.eraseDups)])
+  let r := (inputs.zip (List.range inputs.length)).foldl step ([], [])
+  { indToSsas := r.1, ssaToInds := r.2, ssa := inputs.length, path := [] }
+
+/-- inner double loop (path_basic.py:873-884) for one contracted id `s`; `none` = `KeyError` -/
+def edgeAbsorb (ssa : Nat) (s : Nat) (acc : List (Ix × List Nat) × List (Nat × List Ix) × List Ix) :
+    Option (List (Ix × List Nat) × List (Nat × List Ix) × List Ix) :=
+  match acc.2.1.lookup s with
+  | none => none
+  | some inds =>
+    let s2i := acc.2.1.filter (fun kv => kv.1 != s)
+    inds.foldl (fun (o : Option (List (Ix × List Nat) × List (Nat × List Ix) × List Ix)) jx =>
+      match o with
+      | none => none
+      | some (i2s, s2i', term) =>
+        match i2s.lookup jx with
+        | none => some (i2s, s2i', term)
+        | some set =>
+          if set.contains s then
+            some (i2s.map (fun kv => if kv.1 == jx then (kv.1, setAdd ssa (kv.2.filter (· != s))) else kv),
+                  s2i', if term.contains jx then term else term ++ [jx])
+          else none) (some (acc.1, s2i, acc.2.2))
+
+/-- one iteration of the main loop (path_basic.py:865-889) -/
+def edgeStep (st : EdgeState) (ix : Ix) : Option EdgeState :=
+  match st.indToSsas.lookup ix with
+  | none => none                                   -- `ind_to_ssas.pop(ix)` raises KeyError
+  | some scon =>
+    let i2s := st.indToSsas.filter (fun kv => kv.1 != ix)
+    if scon.length < 2 then some { st with indToSsas := i2s }
+    else
+      match (sortAsc scon).foldl (fun o s => o.bind (edgeAbsorb st.ssa s)) (some (i2s, st.ssaToInds, [])) with
+      | none => none
+      | some (i2s', s2i', term) =>
+        some { indToSsas := i2s', ssaToInds := s2i' ++ [(st.ssa, term)], ssa := st.ssa + 1,
+               path := st.path ++ [sortAsc scon] }
+
+def edgePathToSsa (edgePath : List Ix) (inputs : List (List Ix)) : Option Path :=
+  (edgePath.foldl (fun o ix => o.bind (fun st => edgeStep st ix)) (some (edgeInit inputs))).map (·.path)
 
 end Paths
 end Cotengra
